@@ -147,7 +147,10 @@ def ros_param_tokens(ps, overrides=None):
     t += [hexd(x) for x in p["a"][:nt]] + [hexd(x) for x in p["c"][:nt]]
     t += [hexd(x) for x in p["m"][:s]] + [hexd(x) for x in p["e"][:s]]
     t.append(hexd(p["gamma"][0]))
-    t += ["1" if b else "0" for b in p["new_function_evaluation"][:s]]
+    # all six entries of the std::array<bool, 6>, as the factory function leaves them (the two-stage factory fills the
+    # whole array with `true`): the entries beyond `stages` must never matter
+    nf = list(p["new_function_evaluation"]) + [False] * 6
+    t += ["1" if b else "0" for b in nf[:6]]
     t.append(hexd(p["estimator_of_local_order"]))
     for k in ("round_off", "factor_min", "factor_max", "rejection_factor_decrease", "safety_factor", "h_min", "h_max", "h_start"):
         t.append(hexd(p[k]))
